@@ -192,6 +192,7 @@ def run(rep, tier):
             elif not np.allclose(g(a) + g(b), img, rtol=0, atol=1e-12 * scale_):
                 rep.violation('not-additive', 'image of the concatenated table differs from the sum of the two images', replay)
     psfphot_images(rep, r, 3 * scale)
+    iterative_images(rep, r, 3 * scale)
 
 
 def psfphot_images(rep, r, n):
@@ -214,6 +215,51 @@ def psfphot_images(rep, r, n):
         rep.probe_only += 1
         if not np.array_equal(res, img - mod):
             rep.violation('residual-ne-data-minus-model', 'make_residual_image != data - make_model_image', {})
+
+
+def iterative_images(rep, r, n):
+    """IterativePSFPhotometry with a local-background estimator: the model image with / without the local background, in either call
+    order, equals what a fresh object gives; residual == data - model in both forms"""
+    from astropy.table import Table
+    from photutils.background import LocalBackground
+    from photutils.detection import DAOStarFinder
+    from photutils.psf import CircularGaussianPRF, IterativePSFPhotometry, SourceGrouper
+    yy, xx = np.mgrid[0:33, 0:35]
+    for k in range(n):
+        srcs = [(r.uniform(6, 28), r.uniform(6, 26), r.uniform(200, 600)) for _ in range(3)]
+        img = np.full((33, 35), 3.0)                               # non-zero sky: local_bkg != 0
+        for x, y, f in srcs:
+            img += CircularGaussianPRF(flux=f, x_0=x, y_0=y, fwhm=2.5)(xx, yy)
+
+        def mk():
+            ph = IterativePSFPhotometry(CircularGaussianPRF(fwhm=2.5), (5, 5), finder=DAOStarFinder(20.0, 2.5), aperture_radius=4,
+                                        localbkg_estimator=LocalBackground(5, 8), mode=r_mode, grouper=SourceGrouper(6.0), maxiters=2, progress_bar=False)
+            with warnings.catch_warnings():
+                warnings.simplefilter('ignore')
+                ph(img, init_params=Table({'x': [s_[0] for s_ in srcs], 'y': [s_[1] for s_ in srcs]}))
+            return ph
+        r_mode = r.choice(['new', 'all'])
+        rep.case(('iterimg', img.tobytes(), r_mode), True, kind=f'iterative-model-image:{r_mode}')
+        rep.probe_only += 1
+        with warnings.catch_warnings():
+            warnings.simplefilter('ignore')
+            try:
+                ref_no = mk().make_model_image(img.shape, psf_shape=(9, 9), include_localbkg=False)
+                ref_bk = mk().make_model_image(img.shape, psf_shape=(9, 9), include_localbkg=True)
+                ph = mk()
+                seq = [('bkg', ph.make_model_image(img.shape, psf_shape=(9, 9), include_localbkg=True)),
+                       ('no', ph.make_model_image(img.shape, psf_shape=(9, 9), include_localbkg=False)),
+                       ('res', ph.make_residual_image(img, psf_shape=(9, 9), include_localbkg=False)),
+                       ('bkg', ph.make_model_image(img.shape, psf_shape=(9, 9), include_localbkg=True))]
+            except Exception as e:                              # noqa: BLE001
+                rep.violation(f'iterative-model-image-raises:{type(e).__name__}', f'IterativePSFPhotometry model image raised {e!r}', {'sources': srcs, 'mode': r_mode})
+                continue
+        for i, (kind, im) in enumerate(seq):
+            exp = {'bkg': ref_bk, 'no': ref_no, 'res': img - ref_no}[kind]
+            if not np.allclose(im, exp, rtol=0, atol=1e-9):
+                rep.violation('iterative-model-image-call-order', f'call #{i} ({kind}) of the sequence [with bkg, without, residual, with bkg] differs from a fresh object by '
+                              f'{float(np.abs(im - exp).max()):.3g}', {'sources': srcs, 'mode': r_mode})
+                break
 
 
 def replay(rep, data):
